@@ -405,11 +405,12 @@ impl<'a> Driver<'a> {
         let max_steps = if scenario.max_steps == 0 { 20000 } else { scenario.max_steps };
         let mut stuck = false;
 
-        let (mut rng, stall_sweeper, stall_consumer, advance_pct, max_advance, sweeper_pct) = match &scenario.schedule {
-            Schedule::Random { seed, stall_sweeper, stall_consumer, advance_pct, max_advance, sweeper_pct, .. } =>
-                (StdRng::seed_from_u64(*seed), *stall_sweeper, *stall_consumer, *advance_pct, (*max_advance).max(1), *sweeper_pct),
-            Schedule::List { .. } => (StdRng::seed_from_u64(0), false, false, 0, 1, 100),
+        let (mut rng, stall_sweeper, stall_consumer, advance_pct, max_advance, sweeper_pct, sticky_pct) = match &scenario.schedule {
+            Schedule::Random { seed, stall_sweeper, stall_consumer, advance_pct, max_advance, sweeper_pct, sticky_pct } =>
+                (StdRng::seed_from_u64(*seed), *stall_sweeper, *stall_consumer, *advance_pct, (*max_advance).max(1), *sweeper_pct, *sticky_pct),
+            Schedule::List { .. } => (StdRng::seed_from_u64(0), false, false, 0, 1, 100, 0),
         };
+        let mut last_actor: Option<String> = None;
         let list: Option<Vec<ListStep>> = match &scenario.schedule { Schedule::List { steps, .. } => Some(steps.clone()), _ => None };
         let then_drain = match &scenario.schedule { Schedule::List { then_drain, .. } => *then_drain, _ => true };
         let mut list_pos = 0usize;
@@ -489,6 +490,13 @@ impl<'a> Driver<'a> {
                         else { stuck = true; break; }
                     }
                 }
+                if choice.is_none() && sticky_pct > 0 {
+                    if let Some(last) = &last_actor {
+                        if candidates.iter().any(|(role, _)| role == last) && rng.gen_range(0..100) < sticky_pct {
+                            choice = Some((last.clone(), 0));
+                        }
+                    }
+                }
                 if choice.is_none() {
                     if candidates.is_empty() { stuck = true; break; }
                     let total: u32 = candidates.iter().map(|candidate| candidate.1).sum();
@@ -500,6 +508,7 @@ impl<'a> Driver<'a> {
                 }
             }
             let (actor, advance) = choice.unwrap();
+            if actor != "env" { last_actor = Some(actor.clone()); }
 
             // ---- execute
             step_no += 1;
